@@ -3,6 +3,7 @@ CONSTANTS
   Denoms = {"eth"}
   Mods <- ModsMixed
   AddrMode = "simple"
+  Stock = FALSE
   MaxTx = 1
   Fuel = 3
   Level = 1
